@@ -4,6 +4,7 @@ import Hive.Proofs.C12bTimeHeap
 import Hive.Proofs.C12bIndexedStorage
 import Hive.Proofs.C12bOnChangeMap
 import Hive.Proofs.C12bSubMgrMirror
+import Hive.Proofs.C12bSubMgrLimit
 import Hive.Gen.C12b_Src
 import Hive.Spec.C12bSource
 /-!
@@ -129,6 +130,14 @@ example : (WK.run (WK.init false) [.push 1, .pushFront [1, 2, 3], .next, .next, 
     [.ok, .ok, .elem 3, .elem 2, .elem 1, .panic, .bool true] := by
   decide
 
+/-- `StopWalk` forces `HasNext` to false (whatever is queued), `Reset` returns to the freshly
+constructed walker (queue, pushed set and stop flag; the revisit option is kept). -/
+theorem C12_walker_stop_and_reset (s : WK.St) :
+    (WK.step (WK.step s .stop).1 .hasNext).2 = .bool false ∧
+    (WK.step (WK.step s .stop).1 .stopped).2 = .bool true ∧
+    (WK.step s .reset).1 = WK.init s.revisit := by
+  simp [WK.step, WK.init]
+
 /-- Witness about the model of the **unrepaired** `PushFront` (returns at the first repeat):
 `Push(1); PushFront(1,2,3)` leaves 2 and 3 neither queued nor marked as pushed. -/
 theorem C12_walker_old_pushfront_witness :
@@ -182,6 +191,40 @@ theorem C12_timeheap_old_clear_witness :
     (TH.step (TH.clearOld (TH.step TH.init (.add 5)).1) (.avg 3)).2 = .total 5 3 := by
   decide
 
+/-- The slice is a binary min-heap on the timestamps in every reachable state (what `heap.Pop`
+returning the oldest entry rests on; the harness checks the same on the real array after requests). -/
+theorem C12_timeheap_heap_ordered (ops : List TH.Op) : TH.HeapOrd (TH.final TH.init ops).heap := by
+  have h := (TH.run_refines TH.init TH.specInit ops TH.rel_init).2
+  rw [TH.run_fst] at h
+  exact h.ord
+
+theorem TH.counts_filter_le (p : TH.Entry → Bool) (l : List TH.Entry) : TH.counts (l.filter p) ≤ TH.counts l := by
+  induction l with
+  | nil => exact Nat.le_refl _
+  | cons e l ih =>
+    rw [List.filter_cons]
+    split
+    · rw [TH.counts_cons, TH.counts_cons]; omega
+    · rw [TH.counts_cons]; omega
+
+/-- The `uint64` running total is exact as long as it cannot wrap: if everything added since the last
+`Clear` sums to less than 2^64, the answer is the true windowed sum (no `mod`). -/
+theorem C12_timeheap_exact_without_wrap (h : Nat) (ops : List TH.Op) (hf : TH.FixedWindow h ops)
+    (hs : TH.counts (TH.addedSince ops).2 < TH.W) :
+    (TH.step (TH.final TH.init ops) (.avg h)).2 =
+      .total (TH.counts ((TH.addedSince ops).2.filter (TH.inWindow (TH.addedSince ops).1 h))) h := by
+  rw [C12_timeheap_fixed_window h ops hf]
+  have := TH.counts_filter_le (TH.inWindow (TH.addedSince ops).1 h) (TH.addedSince ops).2
+  rw [Nat.mod_eq_of_lt (by omega)]
+
+example : TH.counts (TH.addedSince [.add 5, .tick 1, .add 2, .avg 3, .tick 1, .avg 3]).2 < TH.W := by decide
+
+/-- Wrap-around, concretely: 2^64 − 1 and 7 are both inside the window — the answer is 6; once the
+big entry has left the window the answer is 7 again (the subtraction wraps back). -/
+example : (TH.run TH.init [.add 18446744073709551615, .tick 1, .add 7, .avg 5, .avg 1]).2 =
+    [.ok, .ok, .ok, .total 6 5, .total 7 1] := by
+  rw [C12_timeheap_refines]; decide
+
 /-! ## IndexedStorage — a keyed store of storages -/
 
 /-- Observational equivalence with the abstract model (a partial function from indexes to
@@ -217,6 +260,18 @@ theorem C12_indexedstorage_no_aliasing (ops : List IX.Op) :
   have hv : IX.Inv s := IX.inv_final _ ops IX.inv_init
   exact ⟨hv.live, hv.inj⟩
 
+/-- Storages are handed out by pointer: evicting an index or clearing the cache detaches the storage
+but never touches its contents (it stays usable through the handles given out before). -/
+theorem C12_indexedstorage_detached_storage_survives (s : IX.St) (i : Nat) :
+    (IX.step s (.evict i)).1.stores = s.stores ∧ (IX.step s .clear).1.stores = s.stores ∧
+    (IX.step s (.evict i)).1.cache.get i = none := by
+  refine ⟨?_, rfl, ?_⟩
+  · simp only [IX.step]; split <;> rfl
+  · simp only [IX.step]
+    split
+    · exact AMap.get_del_self _ _
+    · assumption
+
 example : (IX.run IX.init [.get 1 false, .get 1 true, .sset 0 2 7, .get 2 true, .evict 1, .sset 0 3 1, .sget 0 2,
     .get 1 true, .forEach, .clear, .forEach]).2 =
     [.nil, .handle 0, .ok, .handle 1, .handle 0, .ok, .val (some 7), .handle 2,
@@ -242,6 +297,81 @@ theorem C12_onchangemap_changed_snapshot (s : OC.St) (op : OC.Op) (snap : AMap N
 
 example : OC.Event.changed [(1, 5)] ∈
     (OC.step (OC.step (OC.init true true true true) (.enable true)).1 (.add 1 5 false false)).2.events := by
+  decide
+
+/-- With the callbacks switched off nothing is ever called and no request fails because of a
+callback: the answer is that of the plain keyed store. -/
+theorem C12_onchangemap_disabled_silent (s : OC.St) (op : OC.Op) (h : s.enabled = false)
+    (hop : ∀ b, op ≠ .enable b) :
+    (OC.step s op).2.events = [] ∧ (OC.step s op).2.res ≠ .errChanged ∧ (OC.step s op).2.res ≠ .errItem := by
+  cases op with
+  | enable b => exact absurd rfl (hop b)
+  | add k v fc fi => simp only [OC.step]; split <;> simp [OC.execItem, h]
+  | modify k v mu rp fc fi =>
+    simp only [OC.step]
+    split
+    · simp
+    · split <;> simp [OC.execItem, h]
+  | delete k fc fi => simp only [OC.step]; split <;> simp [OC.execItem, h]
+  | get k => simp only [OC.step]; split <;> simp
+  | all => simp [OC.step]
+  | exec fc => simp [OC.step, OC.execChanged, h]
+
+example : (OC.init true true true true).enabled = false := rfl
+
+/-- A request that is refused (`Add` of an existing id, `Modify` / `Delete` / `Get` of a missing one)
+changes nothing and calls nothing. -/
+theorem C12_onchangemap_refused_no_effect (s : OC.St) (op : OC.Op)
+    (h : (OC.step s op).2.res = .errExists ∨ (OC.step s op).2.res = .errMissing) :
+    (OC.step s op).1 = s ∧ (OC.step s op).2.events = [] := by
+  cases op with
+  | enable b => simp [OC.step] at h
+  | add k v fc fi =>
+    simp only [OC.step] at h ⊢
+    split
+    · exact ⟨rfl, rfl⟩
+    · rename_i hk
+      simp only [hk] at h
+      have := OC.execItem_res { s with m := s.m.set k v } s.hasA (.added k v) fc fi
+      rcases h with h | h
+      · exact absurd h this.1
+      · exact absurd h this.2
+  | modify k v mu rp fc fi =>
+    simp only [OC.step] at h ⊢
+    split
+    · exact ⟨rfl, rfl⟩
+    · rename_i old hk
+      simp only [hk] at h
+      exfalso
+      revert h
+      split
+      · simp
+      · intro h
+        have := OC.execItem_res { s with m := s.m.set k (if mu then v else old) } s.hasM
+          (.modified k (if mu then v else old)) fc fi
+        rcases h with h | h
+        · exact absurd h this.1
+        · exact absurd h this.2
+  | delete k fc fi =>
+    simp only [OC.step] at h ⊢
+    split
+    · exact ⟨rfl, rfl⟩
+    · rename_i old hk
+      simp only [hk] at h
+      have := OC.execItem_res { s with m := s.m.del k } s.hasD (.deleted k old) fc fi
+      rcases h with h | h
+      · exact absurd h this.1
+      · exact absurd h this.2
+  | get k => simp only [OC.step]; split <;> exact ⟨rfl, rfl⟩
+  | all => exact ⟨rfl, rfl⟩
+  | exec fc =>
+    simp only [OC.step] at h ⊢
+    have := OC.execChanged_res s fc
+    rcases h with h | h
+    · exact absurd h this.1
+    · exact absurd h this.2
+
+example : (OC.step (OC.step (OC.init true true true true) (.add 1 5 false false)).1 (.add 1 6 false false)).2.res = .errExists := by
   decide
 
 /-- Callbacks mirror every change: with the callbacks switched on and all item callbacks installed,
@@ -278,6 +408,22 @@ theorem C12_submgr_topic_count_is_sum (limit : Int) (ops : List SM.Op) :
   intro s
   have hv : SM.Inv s := SM.inv_final _ ops (SM.inv_init limit)
   exact ⟨hv.sum, hv.tpos, hv.pos, hv.subsNodup, hv.topicsNodup⟩
+
+/-- The subscription limit holds in every reachable state: with a limit `L ≠ 0` a connected client
+holds nothing or at most `L − 1` distinct topics (nothing at all for `L = 1` and for negative `L`:
+every new topic "reaches" such a limit and drops the client). -/
+theorem C12_submgr_limit_bound (limit : Int) (ops : List SM.Op) (hl : limit ≠ 0) :
+    let s := SM.final (SM.init limit) ops
+    ∀ c m, s.subs.get c = some m → m = [] ∨ (m.length : Int) + 1 ≤ limit := by
+  intro s c m h
+  obtain ⟨hb, hlim⟩ := SM.bounded_final (SM.init limit) ops (SM.bounded_init limit)
+  have := hb c m h (by rw [hlim]; exact hl)
+  rw [hlim] at this
+  exact this
+
+/-- Non-vacuity: limit 3, a client holding two topics (the bound is tight). -/
+example : (SM.final (SM.init 3) [.connect 1, .subscribe 1 4, .subscribe 1 5]).subs.get 1 = some [(4, 1), (5, 1)] := by
+  decide
 
 /-- Observable form: a topic has subscribers exactly when some client is subscribed to it. -/
 theorem C12_submgr_topic_iff_client (limit : Int) (ops : List SM.Op) (t : Nat) :
